@@ -168,6 +168,28 @@ deriving DecidableEq, Repr
 /-- for the per-input taproot signature hashes `digests` of one transaction -/
 def btcSignings (digests : List Bytes) : List SigningStart := digests.map fun d => ⟨toHex d, d⟩
 
+/-! ### what a Signing object holds across runs, and what keygen / resharing store at the end -/
+
+/-- `BaseTss.PartyStore` (a Go map peer id ↦ *PartyID) as an association list searched from the front: the newest entry
+    for an id is the one that counts -/
+abbrev PartyStore := List (Peer × Nat)
+
+def PartyStore.lookup (st : PartyStore) (p : Peer) : Option Nat := (st.find? fun e => e.1 == p).map (·.2)
+
+/-- `PopulatePartyStore(parties)`: `b.PartyStore[party.Id] = party` for every party — an existing entry is OVERWRITTEN -/
+def populate (st : PartyStore) (parties : List Party) : PartyStore :=
+  parties.map (fun p => (p.id, p.index)) ++ st
+
+/-- the party-store effect of ecdsa `Signing.Run(…, params)` on an object whose store is `st`: a relayer outside the subset
+    returns before touching it; otherwise the store is populated from the parties of THIS subset -/
+def signingRunStore (self : Peer) (st : PartyStore) (subset : List Peer) : PartyStore :=
+  if subset.contains self then populate st (partiesFromPeers subset) else st
+
+/-- what `processEndMessage` of ecdsa keygen / resharing hands to the storer next to the key material: the process's own
+    (new) threshold and the peers of the host's peer store — the NEW committee — whatever the old share listed -/
+def storedAtEnd (_oldKeyPeers : List Peer) (newThreshold : Int) (peerstore : List Peer) : Int × List Peer :=
+  (newThreshold, peerstore)
+
 /-! ### Bitcoin: collecting the per-input signatures and attaching them (`watchExecution`, `sendTx`) -/
 
 /-- outcome of the collection loop over a finite list of arrivals -/
